@@ -328,6 +328,21 @@ def run(ctx):
             ctx.fail("C11.R3", key, pi.file, pi.node.lineno, pi.qual,
                      f"{name}: " + ("the port is not parsed as hexadecimal" if not base16
                                     else "a zero port no longer yields the empty address ()"))
+    # both end-points are decoded for EVERY inet row: a connected UDP socket has a
+    # remote address too, so neither may depend on the socket type (only `status` does)
+    for name in ("laddr", "raddr"):
+        v = slots[name]
+        conds_ = [c_ for c_ in _walk(v) if isinstance(c_, tuple) and c_ and c_[0] == "gphi"]
+        typed = [c_ for c_ in conds_ if "SOCK_STREAM" in pretty(c_[1]) or "SOCK_DGRAM" in pretty(c_[1])
+                 or any(isinstance(x_, tuple) and len(x_) == 2 and x_[0] == "param"
+                        and str(x_[1]).startswith("type") for x_ in _walk(c_[1]))]
+        key = f"inet:{name}:every-row"
+        if typed:
+            ctx.fail("C11.R3", key, pi.file, pi.node.lineno, pi.qual,
+                     f"inet {name} depends on the socket type (`{pretty(typed[0][1])[:60]}`): a "
+                     f"connect()ed UDP socket would lose its remote end-point")
+        else:
+            ctx.ok("C11.R3", key, nontrivial=False, sample=f"{name} decoded whatever the socket type")
     # a table is skipped without being read only when its file does not exist
     picfg = A.cfg(pi)
     fparam = pi.node.args.args[0].arg if pi.node.args.args else "file"
